@@ -66,7 +66,8 @@ def run(case, bct, REC):
     rsd = case['rs']
     rs = np.random.RandomState(rsd)
     planted = np.arange(n) % max(2, min(4, n // 3 or 2)) + 1
-    base_starts = [None, planted, np.ones(n, dtype=int), rs.randint(1, 4, size=n), rs.randint(0, 3, size=n) * 11 + 5]
+    base_starts = [None, planted, np.ones(n, dtype=int), rs.randint(1, 4, size=n), rs.randint(0, 3, size=n) * 11 + 5,
+                   rs.permutation(n) + 1, np.arange(n)[::-1] * 3 + 2]   # n singleton modules whose labels are not in node order
 
     def rngs():
         return [rngmod.make_rng({'kind': 'spy', 'seed': rsd})] + \
